@@ -87,7 +87,11 @@ def run_case(case):
         mts = [dict(t, wd=proj.root) for t in ts]
         deps, _, _ = model.dependency_relation(mts)
         names = [t["name"] for t in ts]
-        sim = SimCluster(proj.simdir, sched, first_id=case["first_id"])
+        # SGE: a running job that is deleted may stay listed as "dr" (deletion registered) for a while
+        lingers = sched == "sge" and case["first_id"] != 40
+        sim = SimCluster(proj.simdir, sched, first_id=case["first_id"], config={"qdel_lingers": True} if lingers else None)
+        if lingers:
+            res.mon("sge_lingering_cases")
         tracked = {}
         for n in names:
             s = case["sit"][n]
